@@ -281,6 +281,9 @@ func (t *trzszTransfer) recvPrefixHash(writer fileWriter, srcFile *sourceFile, t
 	} else {
 		size = srcFile.Size
 	}
+	if size < 0 {
+		return simpleTrzszError("Invalid file size: %d", size)
+	}
 	if progress != nil {
 		progress.onSize(size)
 	}
